@@ -511,6 +511,17 @@ SchedStopViol(ev) ==
   \cup Chk("C43_CleanStopWaits_JobSubmittedDuringShutdown",
       ev.reason = "REQUEST(CLEAN)" =>
          \A i \in SyncIds(ev) \ env.activeAtCleanReq : SyncRec(ev, i).st \notin {"submitted", "running"})
+\* C20: a restart - after a clean stop or after a crash at any point - takes each task's status from the
+\* task_pool table it finds (the table that is rewritten together with the prerequisites, once per main-loop
+\* iteration), not from a table that is committed at other moments: a task the table lists is restored in the
+\* status of one of its rows (preparing is restored as waiting, with the same submit number)
+BootDbViol(ev) ==
+  IF ~(ev.restart /\ ev.hasdb) THEN {}
+  ELSE Chk("C20_RestoredStatusFromPoolTable",
+           \A i \in SyncIds(ev) :
+              LET rows == {d \in DbRows(ev) : d[1] = Name(i) /\ d[2] = Pt(i)} IN
+              rows # {} => \E d \in rows : \/ SyncRec(ev, i).st = d[4]
+                                           \/ (d[4] = "preparing" /\ SyncRec(ev, i).st = "waiting"))
 BootViol(ev) ==
   IF ~(ev.restart /\ env.downkind = "stop") THEN {}
   ELSE Chk("C19_RestoreProjection",
@@ -882,7 +893,7 @@ Violations(ev) ==
                                      ~(s.st = "waiting" /\ s.rh /\ ~s.held /\ s.preok /\ s.xok /\ Pt(i) <= StopPt
                                        /\ Pt(i) <= RunaheadLimit(W, Min({Pt(j) : j \in SyncIds(ev)}), ev.maxfut, StopPt)))
     [] ev.e = "end" -> EndViol(ev)
-    [] ev.e = "boot" -> BootViol(ev) \cup BootStopViol(ev)
+    [] ev.e = "boot" -> BootViol(ev) \cup BootStopViol(ev) \cup BootDbViol(ev)
     [] ev.e = "sched_stop" -> SchedStopViol(ev)
     [] ev.e = "quiescent" -> QuiescentViol(ev)
     [] ev.e = "merge" -> MergeViol(ev)
@@ -908,7 +919,8 @@ Covered(ev) ==
     [] ev.e = "set_stop" -> Cov("C03_ShutdownQuiescent", ev.mode = "AUTO")
     [] ev.e = "stall" -> {"C03_StallIsReal"}
     [] ev.e = "end" -> EndCov(ev)
-    [] ev.e = "boot" -> BootCov(ev) \cup Cov("C43_StopPointForgotten", ev.restart /\ env.downkind = "auto" /\ env.cmdStop # NoPoint)
+    [] ev.e = "boot" -> BootCov(ev) \cup Cov("C20_RestoredStatusFromPoolTable", ev.restart /\ ev.hasdb /\ ev.dbpool # <<>>)
+                          \cup Cov("C43_StopPointForgotten", ev.restart /\ env.downkind = "auto" /\ env.cmdStop # NoPoint)
                           \cup Cov("C43_StopPointKeptAcrossRestart", ev.restart /\ env.downkind = "stop" /\ env.cmdStop # NoPoint)
     [] ev.e = "sched_stop" -> Cov("C43_CleanStopWaits", ev.reason = "REQUEST(CLEAN)")
     [] ev.e = "quiescent" -> QuiescentCov(ev)
